@@ -107,6 +107,16 @@ def gen_linger(rng, tier):
                     cases.append({"k": "linger", "tr": tr, "linger": linger, "n": n, "size": size, "sndhwm": hwm,
                                   "rcvhwm": rng.choice([1000, 100]), "pace_us": pace, "stall_ms": stall, "mode": mode,
                                   "idle_ms": 600, "sndtimeo": 100, "threads": rng.choice([1, 2, 4]), "cap_ms": 12000})
+    # everything has left the sending session before it closes (small total, hold_ms of quiet after the last send): the
+    # recorded finding (messages still INSIDE the session are not covered by LINGER) cannot apply, so every accepted
+    # message must reach the reading peer - also when the receiver is slower than the wire and its queues are full
+    for tr in ("tcp", "ipc"):
+        for (n, size, rcvhwm, pace) in ([(200, 512, 20, 2000), (400, 256, 64, 1000)] if tier == "quick" else
+                                        [(200, 512, 20, 2000), (400, 256, 64, 1000), (120, 1024, 8, 3000), (300, 512, 100, 1500)]):
+            for linger in ((-1,) if tier == "quick" else (-1, 5000, 50)):
+                cases.append({"k": "linger", "tr": tr, "linger": linger, "n": n, "size": size, "sndhwm": 1000, "rcvhwm": rcvhwm,
+                              "pace_us": pace, "stall_ms": 0, "mode": "close_term", "idle_ms": 900, "sndtimeo": 100, "threads": 2,
+                              "cap_ms": 12000, "hold_ms": 700, "settled": True})
     # fixed witnesses of the recorded finding: a deep queue, LINGER -1 / 5 s, a peer that reads as fast as it can
     for tr in ("tcp", "ipc"):
         for linger in (-1, 5000):
@@ -189,6 +199,10 @@ def make_oracle(res):
                 return "term() took %d ms with LINGER %d" % (term_ms, c["linger"])
         if c["mode"] != "close" and c["tr"] != "inproc" and actors != 0:
             return "%d actors of the context still registered after term() returned" % actors
+        if c.get("settled") and rec != acc:
+            return ("%d of %d accepted messages reached the reading peer although the sender closed only %d ms after its last "
+                    "send() (everything had left the sending session): the tail was lost on the way to the application "
+                    "(%s, RCVHWM %d, receiver %d us per message)" % (rec, acc, c["hold_ms"], c["tr"], c["rcvhwm"], c["pace_us"]))
         if all_expected(c) and rec != acc:
             return "LINGER %d: %d of %d accepted messages arrived at a connected, reading peer (%s, %s, %d x %d bytes)" % (
                 c["linger"], rec, acc, c["tr"], c["mode"], c["n"], c["size"])
@@ -212,6 +226,7 @@ def strip(c):
     if c["k"] == "linger":
         d = dict(c)
         d.pop("witness", None)
+        d.pop("settled", None)
         return d
     return c
 
